@@ -8,13 +8,13 @@ with open(os.path.join(core.SPEC, "dev_flags.json")) as _f:
     DEV = json.load(_f)
 
 BASELINE = dict(info="ok", logger="ok", name="ok", sbi="ok", scheme="http", sbitls="present", rf="ok", abmf="ok", cgf="ok",
-                mongo="ok", svc="one", nrf="ok")
+                mongo="ok", svc="one", nrf="ok", keylog="none")
 
 
 def diameter(name, v, port):
     if v == "absent":
         return []
-    out = ["  %s:" % name, "    protocol: tcp"]
+    out = ["  %s:" % name, "    protocol: %s" % ("sctp" if v in ("sctp", "sctpnotls") else "tcp")]
     if v == "name":
         out.append("    hostIPv4: localhost")          # a host NAME is legal for the `host` validator
     elif v == "badname":
@@ -22,7 +22,7 @@ def diameter(name, v, port):
     elif v != "nohost":
         out.append("    hostIPv4: 127.0.0.1")
     out.append("    port: %s" % {"port0": "0", "port65536": "65536"}.get(v, port))
-    if v != "notls":
+    if v not in ("notls", "sctpnotls"):
         out += ["    tls:", "      pem: {PEM}", "      key: {KEY}"]
     return out
 
@@ -69,7 +69,8 @@ def yaml_of(c):
 
 def to_case(hist, bid):
     h = hist[0]
-    return dict(id=bid, cfg=h["cfg"], baseline=BASELINE, valid=h["valid"], must_reject=h["must_reject"], yaml=yaml_of(h["cfg"]), steps=[1])
+    return dict(id=bid, cfg=h["cfg"], baseline=BASELINE, valid=h["valid"], must_reject=h["must_reject"], yaml=yaml_of(h["cfg"]),
+                keylog=h["cfg"].get("keylog") == "set", steps=[1])
 
 
 def _life(tier):
@@ -93,7 +94,7 @@ def check(pid, tier, replay=None):
         invariants=["InvValidStarts", "InvMustRejectInvalid"], n_beh=900 if tier == "quick" else 9000,
         to_behaviour=to_case, harness_mode="config", trace_module="ConfigTrace", trace_consts={}, clauses=None,
         replay=replay, chunk=12, extra_phase=_life(tier),
-        explanation="TLC checked on all 388 800 abstract configurations that whatever validation accepts guarantees every section "
+        explanation="TLC checked on all 1 215 000 abstract configurations that whatever validation accepts guarantees every section "
                     "the start-up reads; the configurations within MaxDist changes of the valid baseline were rendered to YAML, "
                     "given to the real factory.ReadConfig, and every accepted one was used in a separate process to initialise the "
                     "context, open the rating / account-balance / SBI components and serve one online update",
